@@ -109,7 +109,7 @@ func c10run(t *testing.T, rep *lib.Report, c c10case) {
 			// label names are listed in lexical order: cover a plain tag listed before and after the semver tag of the
 			// same bundle (an implementation that lets the last label seen decide would pass one order only)
 			if c.Labels[i] == 1 || c.Labels[i] == 3 {
-				labels[fmt.Sprintf("tag%d", i)] = b.BundleID
+				labels["tag"+strings.Repeat("x", i)] = b.BundleID // tag, tagx, tagxx: each name is a prefix of the next bundle's
 			}
 			if c.Labels[i] >= 2 {
 				labels[fmt.Sprintf("v1.%d.0", i)] = b.BundleID
@@ -296,6 +296,9 @@ func c10faults(t *testing.T, rep *lib.Report) {
 				panic(err)
 			}
 			fw.labels["tag0"] = fw.ids[0]
+			if err := setLabel(st, "r", "tag", fw.ids[1]); err != nil { // a label of a removed bundle whose name is a prefix of a kept one's
+				panic(err)
+			}
 			if cfg.leftover { // an upload interrupted after its index files, more recent than every committed bundle
 				id, _ := ksuid.NewRandom()
 				fw.w.Meta.RawSet(model.GetArchivePathToBundleFileList("r", id.String(), 0), []byte("BundleEntries: []\n"))
@@ -332,7 +335,7 @@ func c10faults(t *testing.T, rep *lib.Report) {
 			st := fw.w.Stores()
 			keep := map[string]bool{fw.ids[2]: true}
 			if cfg.opt == "tags" {
-				keep[fw.ids[0]] = true
+				keep[fw.ids[0]], keep[fw.ids[1]] = true, true
 			}
 			bs, lerr := core.ListBundles("r", st)
 			if lerr != nil {
